@@ -295,6 +295,24 @@ class Flow:
         out = self.j(st, inner) if self.closure_mode == "maybe" else (inner if inner is not None else st)
         return self.transfer(n, out) if out is not None else None
 
+    def ev_Inl(self, n, st):
+        """an inlined helper call (Facts.inlined): bind the parameters, run the body once; the helper's own returns
+        are exits of the inlined block, not of the enclosing function"""
+        for s_ in n.get("stmts", []):
+            if st is None:
+                return None
+            st = self.ev(s_["init"], st)
+            if st is not None:
+                st = self.transfer(s_, st)
+        if st is None:
+            return None
+        saved = (self.rets, self.err_rets)
+        self.rets, self.err_rets = [], []
+        inner = self.ev(n["body"], st)
+        outs = [inner] + [s2 for s2, _ in self.rets] + [s2 for s2, _ in self.err_rets]
+        self.rets, self.err_rets = saved
+        return self.jall(outs)
+
     def ev_Path(self, n, st):
         return self.transfer(n, st)
 
